@@ -85,7 +85,7 @@ def plan(gen, rep, tier, name="String"):
         edges = sorted((call(t) for t in adj.get(k, ())), key=lambda c: json.dumps(c, sort_keys=True))
         nedges += len(edges)
         groups.setdefault(q["cap"], []).append({"cap": q["cap"], "pre": q["pre"], "path": path(k), "edges": edges,
-                                               "q": {f: q[f] for f in ("P", "P1", "C1", "P2", "C2", "XS", "LX", "CH", "full")},
+                                               "q": {f: q[f] for f in ("P", "P1", "C1", "P2", "C2", "C2X", "XS", "LX", "CH", "full")},
                                                "nq": q["ncalls"]})
     ntrans = sum(len(v) for v in adj.values())
     if nedges != ntrans:
@@ -331,7 +331,7 @@ def replay(rec):
     if "q" in ev:
         n = ev["n"]
         g["q"] = {"P": [ev["pos"]], "P1": [min(max(ev["pos"], 0), len(ev["h"]))], "C1": [ev["cnt"]], "P2": [min(max(ev["pos2"], 0), len(n))],
-                  "C2": [ev["cnt2"]], "XS": [n], "LX": n, "CH": [n[0]] if len(n) == 1 else [0], "full": 1}
+                  "C2": [ev["cnt2"]], "C2X": [ev["cnt2"]], "XS": [n], "LX": n, "CH": [n[0]] if len(n) == 1 else [0], "full": 1}
     else:
         g["edges"] = [{"op": ev["op"], "o": ev["o"], "x": ev["x"], "rel": False}]
     d = vlib.workdir("replay")
